@@ -30,8 +30,10 @@ FirstWins(pairs, seen) ==
   ELSE IF Head(pairs)[1] \in seen THEN FirstWins(Tail(pairs), seen)
   ELSE {Head(pairs)} \cup FirstWins(Tail(pairs), seen \cup {Head(pairs)[1]})
 
-\* TXT::attributes on a list of strings (each split at its first '=')
-AttrsOfStrings(strs) == FirstWins([i \in 1 .. Len(strs) |-> SplitFirst(strs[i], Equals)], {})
+\* TXT::attributes on a list of strings (each split at its first '='); strings with a missing
+\* (empty) key are ignored (RFC 6763 6.4), which includes the lone empty string of an empty record
+AttrsOfStrings(strs) ==
+  FirstWins(SelectSeq([i \in 1 .. Len(strs) |-> SplitFirst(strs[i], Equals)], LAMBDA p : p[1] # <<>>), {})
 
 \* TXT::long_attributes on the joined text: split at ';', then at the first '='; empty keys dropped
 LongAttrs(s) ==
